@@ -115,22 +115,24 @@ def run(op, w):
             return ['ok', op[1]]
         if kind == 'new_calc':
             w['K'][op[1]] = pb.Calculator() if op[1] == 'K0' else pb.Calculator(_config=dict(CFG1))
-            return ['ok', H.digest(H.fp(w['K'][op[1]]))]
+            return ['ok', 'created']       # constructing a calculator is not a computation: only what it computes afterwards is compared
         if kind == 'new_multibc':
             m = pb.DragModelMultiBC([pb.BCPoint(0.25, Mach=2.0), pb.BCPoint(0.2, Mach=1.0)], pb.TableG7, U.Grain(168), U.Inch(0.308))
-            return ['ok', H.digest(H.fp(m))]
+            return ['ok', model_obs(m)]
         if kind == 'new_multibc_from':
             m = pb.DragModelMultiBC([pb.BCPoint(0.25, Mach=2.0), pb.BCPoint(0.2, Mach=1.0)], w['S'][op[1]].ammo.dm.drag_table)
-            return ['ok', H.digest(H.fp(m))]
+            return ['ok', model_obs(m)]
         if kind == 'new_atmo':
-            return ['ok', H.digest(H.fp(pb.Atmo(U.Foot(1000), U.InHg(28), U.Fahrenheit(80), 30)))]
+            a = pb.Atmo(U.Foot(1000), U.InHg(28), U.Fahrenheit(80), 30)
+            return ['ok', [bits(a.altitude.raw_value), bits(a.pressure.raw_value), bits(a.temperature.raw_value), bits(a.humidity), bits(a.density_ratio),
+                          bits(a.mach.raw_value), [bits(x) for x in a.get_density_factor_and_mach_for_altitude(3000.0)]]]
         if kind == 'new_shot':
             old = w['S'][op[1]]
             # same values, new objects (the winds are copied by value so that the order of this op and of an edit of D's wind does not matter
             # to the reference world, which applies edits at construction)
             w['S'][op[1]] = pb.Shot(old.weapon, pb.Ammo(old.ammo.dm, U.FPS(old.ammo.mv >> U.FPS)), atmo=old.atmo,
                                     winds=[pb.Wind(x.velocity, x.direction_from, x.until_distance) for x in old._winds])
-            return ['ok', H.digest(H.fp(w['S'][op[1]], display=False))]
+            return ['ok', 'replaced']
     except pb.RangeError as e:
         res = ['RangeError', e.reason, traj_bits(e.incomplete_trajectory)]
         del e.incomplete_trajectory[:]
@@ -138,6 +140,11 @@ def run(op, w):
     except pb.ZeroFindingError as e:
         return ['ZeroFindingError', bits(e.zero_finding_error), e.iterations_count]
     raise HarnessError(f'unknown op {op}')
+
+
+def model_obs(m):
+    """public observables of a drag model (private bookkeeping attributes are nobody's business)"""
+    return H.digest((bits(m.BC), [(bits(p.Mach), bits(p.CD)) for p in m.drag_table], bits(m.weight.raw_value), bits(m.diameter.raw_value), bits(m.length.raw_value)))
 
 
 def all_ops():
